@@ -177,8 +177,8 @@ def run(m, chk):
         "every call site on both the polynomial and the rational branch (ARG-FLOW), the refusal escapes as ValueError. "
         "Exactness when removable, the error bound and the insert/remove round trip are not decided."
     )
-    chk.decides = ["GATE-TOL", "COMMIT-LAST(update)", "N", "ARG-FLOW (nodes, tolerance)", "X-ESCAPE"]
-    chk.not_decided = ["zero deviation when removable", "the error bound", "insert/remove round trip (fails for rational curves, see DESIGN §5)"]
+    chk.decides = ["GATE-TOL", "COMMIT-LAST(update)", "N", "ARG-FLOW (nodes, tolerance)", "X-ESCAPE", "WEIGHT-HOMOG (control points a rational fit commits are of degree 0 in the weights)"]
+    chk.not_decided = ["zero deviation when removable", "the error bound", "insert/remove round trip as values"]
     tolerance_gate(r, chk)
     rule_n(r, chk)
     q = "curves.Curve.knot_remove"
@@ -189,6 +189,9 @@ def run(m, chk):
     arg_flow(r, chk, "ARG-FLOW", UPDATE, ".fit_curve", "other", ["self"])
     fit_flow(r, chk)
     no_swallow(r, chk, [q, UPDATE])
+    from .homog import weight_homog
+
+    weight_homog(r, chk, ["curves.Curve.fit_curve", UPDATE])
 
 
 def fit_flow(r: R, chk):
